@@ -231,6 +231,9 @@ def gen_binary(rng, cx=False):
                 yield case("power", [A(rng, s, "any"), e], argnum=0, tags=["int_exponent"])
                 yield case("pow", [A(rng, s, "any"), e], argnum=0, form="operator", tags=["int_exponent"])
             yield case("power", [A(rng, s, "any"), 2.0], argnum=0, tags=["float_int_exponent"])
+            for e in (2.0, 1.0, 3.0, 0.5, -1.0):
+                yield case("power", [A(rng, s, "pos"), e], argnum=0, tags=["special_exponent_posbase"])
+            yield case("pow", [A(rng, s, "pos"), 2.0], argnum=0, form="operator", tags=["special_exponent_posbase"])
             yield case("power", [A(rng, s, "pos"), A(rng, s, "any")], argnum=1)
             yield case("pow", [2.0, A(rng, s, "any")], argnum=1, form="operator")
         # mod with negative divisor / negative dividend
